@@ -16,7 +16,7 @@ def config(tier):
     return {
         "hashseeds": [0, 1] if q else [0, 1, 2, 3, 4, 5, 6, 7],
         "families": ["G1", "G2", "W"],
-        "mc": [],
+        "mc": [{"module": "MCLimitFanin", "cfg": "MCLimitFanin", "workers": 4, "timeout": 900}],
         "shards": 8 if q else 16,
         "negctl": 12,
     }
@@ -46,6 +46,43 @@ def cases(ctx):
         k = r.choice([2, 2, 3, 4, 5])
         yield {"op": "limit_fanin", "c": proj(c), "k": k, "src": "G3"}
         yield {"op": "limit_fanout", "c": proj(c), "k": r.choice([2, 2, 3]), "src": "G3"}
+        if j % 2 == 0:
+            yield {"op": "acyclic_unroll_acyclic", "c": proj(c), "k": 0, "src": "G3"}
+        yield {"op": "insert_registers", "c": proj(c), "k": r.choice([1, 1, 2, 3]), "src": "G3"}
+    # FO: one driver (input / gate / inverter / output gate) with fan-out 1..9, k = 2..5
+    for drv in ("input", "and", "not", "outgate"):
+        for m in range(1, 10):
+            p = fanout_circuit(drv, m)
+            for k in (2, 3, 4, 5):
+                yield {"op": "limit_fanout", "c": p, "k": k, "src": "FO"}
+    for p in (g2 if not ctx.quick else rng.sample(g2, 150)):
+        yield {"op": "acyclic_unroll_acyclic", "c": p, "k": 0, "src": "G2"}
+        yield {"op": "insert_registers", "c": p, "k": 1, "src": "G2"}
+
+
+def fanout_circuit(drv, m):
+    import networkx as nx
+    from ..proj import proj_graph
+
+    g = nx.DiGraph()
+    g.add_node("a", type="input", output=False)
+    g.add_node("b", type="input", output=False)
+    if drv == "input":
+        d = "a"
+    else:
+        d = "d"
+        g.add_node("d", type="and" if drv != "not" else "not", output=(drv == "outgate"))
+        g.add_edge("a", "d")
+        if drv != "not":
+            g.add_edge("b", "d")
+    types = ["and", "or", "xor", "nand", "nor", "xnor", "buf", "not", "and"]
+    for j in range(m):
+        t = types[j % len(types)]
+        g.add_node("l%d" % j, type=t, output=True)
+        g.add_edge(d, "l%d" % j)
+        if t not in ("buf", "not"):
+            g.add_edge("b", "l%d" % j)
+    return proj_graph(g, "fo")
 
 
 def run_case(case, ctx):
@@ -53,30 +90,51 @@ def run_case(case, ctx):
 
     c = build(case["c"])
     exc, r = "", None
+    if case["op"] == "insert_registers":
+        # domain: a stage boundary must exist (depth_inc = round(max_depth / (stages + 1)) >= 1)
+        depth = max(c.fanin_depth(n) for n in c.nodes())
+        if round(depth / (case["k"] + 1)) < 1:
+            return []
     try:
         if case["op"] == "limit_fanin":
             r = cg.tx.limit_fanin(c, case["k"])
         elif case["op"] == "limit_fanout":
             r = cg.tx.limit_fanout(c, case["k"])
+        elif case["op"] == "acyclic_unroll_acyclic":
+            r = cg.tx.acyclic_unroll(c)
+        elif case["op"] == "insert_registers":
+            r = cg.tx.insert_registers(c, case["k"])
     except Exception as e:  # recorded, judged by the specification
         exc = type(e).__name__
     ev = {"kind": case["op"], "k": case["k"], "c": case["c"], "exc": exc, "r": proj(r) if r is not None else {}}
+    if case["op"] == "insert_registers":
+        ev["rt"] = {}
+        if r is not None:
+            g = r.graph.copy()
+            for inst in r.blackboxes:
+                g.nodes[inst + ".q"]["type"] = "buf"
+                g.add_edge(inst + ".d", inst + ".q")
+            from ..proj import proj_graph
+
+            ev["rt"] = proj_graph(g, r.name, r.blackboxes)
     ev["nontrivial"] = bool(r is not None and (r.graph.number_of_nodes() != c.graph.number_of_nodes()))
     return ev
 
 
 def negctl(e, rng):
-    """Corrupt the recorded result: change one gate type / drop one edge.  Judge must reject."""
-    r = copy.deepcopy(e["r"])
-    if not r or not r.get("n"):
+    """Invert the type of one ORIGINAL gate in the recorded result (circuits without x constants only): its
+    function is complemented, so the function clause of that node must fail whatever the circuit is."""
+    r = copy.deepcopy(e.get("r") or {})
+    if not r or not r.get("n") or "x" in e["c"]["ty"]:
         return []
-    gates = [i for i, t in enumerate(r["ty"]) if t in ("and", "nand", "or", "nor", "xor", "xnor") and len(r["fi"][i]) >= 2]
+    flip = {"and": "nand", "nand": "and", "or": "nor", "nor": "or", "xor": "xnor", "xnor": "xor", "buf": "not", "not": "buf"}
+    orig = set(e["c"]["names"])
+    gates = [i for i, t in enumerate(r["ty"]) if t in flip and r["fi"][i] and r["names"][i] in orig]
     if not gates:
         return []
     i = rng.choice(gates)
-    flip = {"and": "nand", "nand": "and", "or": "nor", "nor": "or", "xor": "xnor", "xnor": "xor"}
     r["ty"][i] = flip[r["ty"][i]]
     c = dict(e)
     c["r"] = r
-    c["corruption"] = "gate type of %s inverted in the recorded result" % r["names"][i]
+    c["corruption"] = "type of original gate %s inverted in the recorded result" % r["names"][i]
     return [c]
